@@ -626,16 +626,32 @@ func apiStoreRevalidated(p *Prog, ctx *CtxInfo, f *Fn, call *ast.CallExpr, inv *
 								if ue, ok := a.(*ast.UnaryExpr); ok && ue.Op == token.AND {
 									a = ast.Unparen(ue.X) // &local
 								}
-								return identObj(ginfo, a) != nil
+								ao := identObj(ginfo, a)
+								if ao == nil {
+									return false
+								}
+								// a local copy of a during-mask (`updated := mgr.updatedStreamsDuring…`) is a re-apply as well:
+								// the import that recorded the streams has counted already
+								nDefs, fromField := 0, 0
+								ast.Inspect(g2.Body(), func(y ast.Node) bool {
+									if as, ok := y.(*ast.AssignStmt); ok && len(as.Lhs) == len(as.Rhs) {
+										for i, lh := range as.Lhs {
+											if identObj(ginfo, lh) == ao {
+												nDefs++
+												if mgrField(ginfo, as.Rhs[i]) != nil {
+													fromField++
+												}
+											}
+										}
+									}
+									return true
+								})
+								return !(nDefs > 0 && nDefs == fromField)
 							}
 						}
 						return false
 					})
 				}) {
-					// skip closures of the converter completion: their argument is a local copy of the during-mask
-					if strings.Contains(g2.Key(), "convertStreamJob") {
-						continue
-					}
 					nInv++
 					isInc := func(n ast.Node) bool {
 						switch s := n.(type) {
